@@ -1,6 +1,7 @@
 """C17 -- pause switches stop exactly the operation they name."""
 import re
 from ..facts import mname
+from ..dataflow import call_of
 from ..effects import (dispatch_table, dispatch_on_enum, arm_blocks, collect_effects, enumerate_chains)
 from ..guards import FlagGuard, site_guarded, flag_tests, resolve
 
@@ -214,7 +215,10 @@ def check_flag_writes(ctx, model):
                 for s_ in srcs:
                     os_ = v.origins_of_operand(s_.operand, at=(s_.block, s_.idx)) if s_.operand else set()
                     det.append(sorted(map(repr, os_)))
-                    ok = ok and bool(os_) and all(o.kind == "param" and o.proj and o.proj[-1] == flag for o in os_)
+                    # the request's same-named field, or (`opt.unwrap_or(config.flag)`) the value already stored
+                    ok = ok and bool(os_) and all((o.kind == "param" and o.proj and o.proj[-1] == flag) or
+                                                  (o.kind == "load" and o.a.endswith("vault::state::CONFIG") and tuple(o.proj) == (flag,)) for o in os_) \
+                        and any(o.kind == "param" for o in os_)
                 ctx.ob("C17-P4", "vault|update_config|%s" % flag, ok, "CONFIG.%s assigned from %s (must be the request's %s)" % (flag, det, flag), v.where(sb))
                 # ... and only when the request names it: with the field absent (None) the assignment is unreachable, so an
                 # update that names one switch leaves the others as stored (None is "leave unchanged", not "false")
@@ -222,7 +226,28 @@ def check_flag_writes(ctx, model):
                 pred = lambda os_, flag=flag: bool(os_) and all(o.kind == "param" and o.proj and o.proj[-1] == flag for o in os_)
                 cut_none = variant_excluded_edges(v, "option::Option", pred, "None")
                 reach_none = v.reachable(0, cut_edges=cut_none)
-                leaked = [s_.block for s_ in srcs if s_.block is not None and s_.block in reach_none]
+                def keeps_stored_when_absent(s_, flag=flag):
+                    """`config.flag = request.flag.unwrap_or(config.flag)`: with the field absent the stored value is re-assigned"""
+                    if s_.operand is None:
+                        return False
+                    with v.opaque(r"^std::option::Option::(unwrap_or|unwrap_or_else)$"):
+                        os2 = v.origins_of_operand(s_.operand, at=(s_.block, s_.idx))
+                    if not os2:
+                        return False
+                    for o in os2:
+                        c = call_of(v, o)
+                        if not c or not re.search(r"^std::option::Option::unwrap_or$", mname(c[1])):
+                            return False
+                        a0 = v.origins_of_operand(c[1]["args"][0], at=v.at_term(c[0]))
+                        a1 = v.origins_of_operand(c[1]["args"][1], at=v.at_term(c[0]))
+                        if not (a0 and all(x.kind == "param" and x.proj and x.proj[-1] == flag for x in a0)):
+                            return False
+                        if not (a1 and all(x.kind == "load" and x.a.endswith("vault::state::CONFIG") and tuple(x.proj) == (flag,) for x in a1)):
+                            return False
+                    return True
+                leaked = [s_.block for s_ in srcs if s_.block is not None and s_.block in reach_none and not keeps_stored_when_absent(s_)]
+                if not cut_none and srcs and all(keeps_stored_when_absent(s_) for s_ in srcs):
+                    cut_none = {("unwrap_or", 0)}      # no branch on the option at all: decided by unwrap_or itself
                 ctx.ob("C17-P4", "vault|update_config|%s|only-when-named" % flag, bool(cut_none) and not leaked,
                        "with the request's %s absent the flag assignment is %s" % (flag, "reachable (bb%s)" % leaked if leaked or not cut_none else "unreachable"), v.where(sb))
     for crate in sorted(POOLS):
